@@ -1,5 +1,5 @@
 (* C06: evaluation of the model on recorded cases (correspondence check). *)
-From CJ Require Import Common.Base C06.Model.
+From CJ Require Import Common.Base C06.Model C06.IPText.
 
 (* Oracle values of the external functions on this input, recorded by the driver
    from Go's net / regexp packages in the same resolver epoch:
@@ -22,7 +22,18 @@ Definition case := (policy * bytes * oracle * (option bytes * bool))%type.
 
 Definition opt_bytes_eqb := option_eqb bytes_eqb.
 
+(* ParseIP, IP.String and the literal branch of ResolveIPAddr are the concrete functions of IPText.v;
+   only the name system (o_res, consulted for hosts that are not literals) and regexp matching are oracle values *)
 Definition model (pol : policy) (s : bytes) (o : oracle) : option bytes * bool :=
+  parse_or_resolve
+    parse_ip_c
+    (resolve_with (fun _ => o_res o))
+    ip_str_c
+    (fun p _ => nth (N.to_nat p) (o_dom o) false)
+    pol s.
+
+(* the same with every external function taken from the oracle values (kept as a cross-check of the oracles) *)
+Definition model_oracle (pol : policy) (s : bytes) (o : oracle) : option bytes * bool :=
   parse_or_resolve
     (fun x => if bytes_eqb x s then o_parse_whole o else o_parse_host o)
     (fun _ => o_res o)
@@ -37,7 +48,7 @@ Definition split_agrees (s : bytes) (o : oracle) : bool :=
 (* what the property talks about: the returned string *)
 Definition chk (c : case) : bool :=
   let '(pol, s, o, (out, lk)) := c in
-  split_agrees s o && opt_bytes_eqb (fst (model pol s o)) out.
+  split_agrees s o && opt_bytes_eqb (fst (model pol s o)) out && opt_bytes_eqb (fst (model_oracle pol s o)) out.
 
 (* the "did a lookup" flag only feeds a statistics counter; compared separately, informational *)
 Definition chk_lookup (c : case) : bool :=
@@ -49,3 +60,10 @@ Definition chk_join (c : bytes * bytes * bytes) : bool :=
   let '(h, p, o) := c in bytes_eqb (join_host_port h p) o.
 Definition chk_contains (c : ipnet * bytes * bool) : bool :=
   let '(n, ip, o) := c in Bool.eqb (contains n ip) o.
+
+(* netip.ParseAddr / net.ParseIP / IP.String against Go *)
+Definition chk_parseaddr (c : bytes * option (bytes * bytes) * option bytes) : bool :=
+  let '(s, pa, pip) := c in
+  option_eqb (fun a b => bytes_eqb (fst a) (fst b) && bytes_eqb (snd a) (snd b)) (parse_addr s) pa &&
+  opt_bytes_eqb (parse_ip_c s) pip.
+Definition chk_ipstr (c : bytes * bytes) : bool := bytes_eqb (ip_str_c (fst c)) (snd c).
